@@ -106,8 +106,9 @@ func runC16(c *Ctx) {
 	}()
 	c.rep.Rule = "sequences of 8-40 calls (CreateFile/Write/Close/Abort/TombstoneFile/Update/OpenFile/handle reads) by up to 4 writers open at once, " +
 		"name draws forced through a cyclic stream over 3 names, payloads: arbitrary bytes incl. empty, and valid bloom files written in 1-3 chunks; " +
-		"real os failures injected at reservation/temp create and directory fsync (EMFILE), Sync (handle closed early), rename/remove (immutable directory, when the platform allows); " +
-		"about a third of the TombstoneFile calls hit a pointer whose writer is still open. After every call: hook-event log = model plan, listing+bytes, scan pointers, reads, spec predicate. " +
+		"real os failures injected at reservation/temp create and the open of the directory fsync (EMFILE), the directory's fsync(2) itself (EIO through a per-thread seccomp filter, when the platform allows), Sync (handle closed early), rename/remove (immutable directory, when the platform allows); " +
+		"about a third of the TombstoneFile calls hit a pointer whose writer is still open; the root directory's own path contains .dat/.tmp in about half of the sequences. " +
+		"After every call: hook-event log = model plan, listing+bytes, scan pointers, reads, spec predicate, no artifact of a tombstoned pointer left, no path outside the root touched. " +
 		"Non-trivial: a sequence with at least one successful Close and one removal or collision. Distinct by call text."
 	scratch := filepath.Join(c.Out, "fs")
 	clearImmutableTree(scratch)
@@ -120,11 +121,16 @@ func runC16(c *Ctx) {
 	pool := bloomFilePool(c, 8)
 	nSeq := c.pick(500, 8000)
 	for i := 0; i < nSeq; i++ {
-		c16Sequence(c, sh, filepath.Join(scratch, fmt.Sprintf("s%d", i)), i, fixed, pool)
+		dir, layout := famFRoot(c, scratch, "s", i)
+		c.dist("c16_root", layout)
+		c16Sequence(c, sh, dir, i, fixed, pool)
 	}
 	c16Exhaust(c, sh, filepath.Join(scratch, "exhaust"), fixed)
 	if !immutableProbe.ok {
 		c.rep.Notes = append(c.rep.Notes, "immutable-directory faults (rename/remove failures) not available on this platform; those branches were exercised in the model only")
+	}
+	if !fsyncFailProbe.ok {
+		c.rep.Notes = append(c.rep.Notes, "a failing fsync(2) (seccomp filter) cannot be injected on this platform; the directory fsync was only failed through the open of the directory")
 	}
 }
 
@@ -166,6 +172,7 @@ func c16Sequence(c *Ctx, sh *shard, dir string, seq int, fixed bool, pool [][]by
 	}
 	bloomStream := c.chance(0.35)
 	r := newFsRig(dir, draws)
+	r.strict = true
 	defer func() {
 		r.close()
 		os.RemoveAll(dir)
@@ -259,6 +266,16 @@ func c16Sequence(c *Ctx, sh *shard, dir string, seq int, fixed bool, pool [][]by
 		steps = append(steps, fmt.Sprintf("(%s, mkObs %s %s %s %s %s %s true)", opTerm, coqLabels(res.labels, in), coqBool(ok), ptrTerm, readTerm, coqListing(listing, in), coqList(scanItems)))
 		log = append(log, *st)
 		// the specification on the Go side
+		if goViolation == "" && len(r.foreign) > 0 {
+			goViolation = fmt.Sprintf("step %d (%s): the store touched a path outside its root directory %s: %v", len(log)-1, st.Op, dir, r.foreign)
+		}
+		if goViolation == "" && st.Op == "TombstoneFile" && res.err == nil {
+			for _, e := range listing {
+				if e.Base == st.Base {
+					goViolation = fmt.Sprintf("step %d: TombstoneFile(%s.dat) returned nil and left %s.%s (%d bytes) behind", len(log)-1, st.Base, e.Base, strings.ToLower(e.Ext), len(e.Data))
+				}
+			}
+		}
 		if goViolation == "" {
 			for b, want := range spec {
 				if got, okc := content[b]; !okc || !bytes.Equal(got, want) {
@@ -371,9 +388,16 @@ func c16Sequence(c *Ctx, sh *shard, dir string, seq int, fixed bool, pool [][]by
 			if r.immOK {
 				choices = append(choices, 2)
 			}
+			if r.fsyncOK {
+				choices = append(choices, 4)
+			}
 			f := fault(choices...)
 			wasDone := fw.done
 			res := r.closeWriter(fw, f)
+			if f >= 0 {
+				c.dist("c16_fault", fmt.Sprintf("close@%d", f))
+			}
+			f = res.faultIdx // the model's numbering (one failure point for the directory fsync)
 			if res.err == nil {
 				spec[fw.base] = append([]byte(nil), fw.written...)
 				nontrivial.closed = true
@@ -386,9 +410,6 @@ func c16Sequence(c *Ctx, sh *shard, dir string, seq int, fixed bool, pool [][]by
 				window[fw.base] = append([]byte(nil), fw.written...)
 			}
 			c.dist("c16_op", "Close")
-			if f >= 0 {
-				c.dist("c16_fault", fmt.Sprintf("close@%d", f))
-			}
 			// the model derives the failing call from its own state when the handle is already closed
 			observe(fmt.Sprintf("FClose %d %s", fw.id, coqOptNat(f)), &c16Step{Op: "Close", Writer: fw.id, Base: fw.base, Fault: f}, res, nil, nil, nil, false)
 		case x < 0.74 && len(r.writers) > 0:
@@ -511,7 +532,7 @@ func c16Sequence(c *Ctx, sh *shard, dir string, seq int, fixed bool, pool [][]by
 		}
 	}
 	term := fmt.Sprintf("CSeq %s (N.to_nat %d%%N) %s %s (fun t => %s)", coqBool(fixed), bs.VerifMaxCreateFileAttempts, in.table(validBloom), coqStrList(draws), coqList(steps))
-	desc := map[string]any{"kind": "sequence", "seq": seq, "draws": draws, "bloom_stream": bloomStream, "unguarded_caller": unguarded, "steps": log, "own_check": fixed}
+	desc := map[string]any{"kind": "sequence", "seq": seq, "root": dir, "draws": draws, "bloom_stream": bloomStream, "unguarded_caller": unguarded, "steps": log, "own_check": fixed}
 	if d8case {
 		desc["sig"] = sigD8
 		c.dist("c16_guard", "stale-writer-close-returned-nil")
@@ -520,6 +541,9 @@ func c16Sequence(c *Ctx, sh *shard, dir string, seq int, fixed bool, pool [][]by
 	c.count([]string{"C16"}, term, nontrivial.closed && (nontrivial.removed || nontrivial.collided), map[string]any{"seq": seq, "draws": draws, "calls": len(log), "bloom_stream": bloomStream})
 	c.dist("c16_stream", map[bool]string{true: "bloom", false: "bytes"}[bloomStream])
 	c.dist("c16_caller", map[bool]string{true: "tombstones-open-pointers,no-faults", false: "well-behaved,faults"}[unguarded])
+	for _, m := range r.misreported {
+		c.mismatch("c16-os-result", fmt.Sprintf("sequence %d: %s", seq, m), desc)
+	}
 	if goViolation != "" {
 		sig := "c16-spec"
 		if d8case {
